@@ -93,8 +93,34 @@ type lfState struct {
 type lfEvent struct {
 	Kind, Name, Val string
 	Pos             token.Pos
-	B               *bv // structured value when known (integers: bits; booleans: one bit)
+	B               *bv  // structured value when known (integers: bits; booleans: one bit)
 	L               *Lin // for "len" events: the requested length
+	// element events ("wire" stores with a symbolic index, "cmp" comparisons of a loaded byte):
+	Org string // buffer the element belongs to
+	Idx *Lin   // its index in that buffer
+	V   *Lin   // the value stored / compared with, as a linear form (nil when not linear)
+	// events of a loop body, generalised over its iterations (Kind prefixed "loop:"):
+	Loop *lfLoopMeta
+}
+
+// lfLoopMeta describes the loop an event was generalised over: the symbols
+// standing for the loop-carried integers at the head of an iteration, each
+// with its value on entry and, when every back edge adds the same constant,
+// that stride; the conditions under which the iteration reaches the back edge;
+// and what is known at the head of every iteration.
+type lfLoopMeta struct {
+	Pos    token.Pos
+	Syms   []Sym
+	Entry  map[Sym]Lin
+	Stride map[Sym]int64 // 0 = not a constant stride
+	Guard  []string      // conditions (rendered) taken from the head to the back edge
+	Cons   []Cons        // constraints at the back edge of the generalised iteration
+}
+
+// lfElemRef locates a byte that was loaded from a tracked buffer.
+type lfElemRef struct {
+	Org string
+	Idx Lin
 }
 
 func (s *lfState) clone() *lfState {
@@ -126,6 +152,9 @@ func (f *lfFrame) cloneEnv() *lfFrame {
 	n.active = append([]*lfLoopCtx{}, f.active...)
 	return &n
 }
+
+// emitting: events are recorded (top-level analysis, or a loop-capture pass).
+func (e *lfEngine) emitting() bool { return e.onStore != nil && (e.quiet == 0 || e.capture > 0) }
 
 type lfLoopCtx struct {
 	loop   *Loop
@@ -175,6 +204,10 @@ type lfEngine struct {
 	// fieldWidth: bits mode: wire width of receiver fields narrower than their
 	// Go type (values are assumed to be within their wire width)
 	fieldWidth map[string]int
+	// capture > 0: a loop body is being run once more only to record its events
+	capture int
+	// elemLoads: symbols standing for bytes loaded from a tracked buffer
+	elemLoads map[Sym]lfElemRef
 }
 
 type lfCopy struct{ Total, Partial int }
@@ -949,6 +982,63 @@ func (e *lfEngine) enter(fr *lfFrame, st *lfState, b, from *ssa.BasicBlock, k lf
 	e.execFrom(fr, st, b, from, 0, k)
 }
 
+// cmpEvents records, on the states of both arms of a branch that compares a
+// byte loaded from a tracked buffer with an integer, which of "equal" and
+// "unequal" holds on that arm.
+func (e *lfEngine) cmpEvents(cond lfVal, ts, fs []*lfState, pos token.Pos) {
+	neg := false
+	for {
+		if n, ok := cond.(vNot); ok {
+			neg = !neg
+			cond = n.X
+			continue
+		}
+		break
+	}
+	cm, ok := cond.(vCmp)
+	if !ok || (cm.Op != token.EQL && cm.Op != token.NEQ) {
+		return
+	}
+	single := func(l Lin) (Sym, bool) {
+		if len(l.T) == 1 && l.C == 0 {
+			for sy, k := range l.T {
+				if k == 1 {
+					return sy, true
+				}
+			}
+		}
+		return 0, false
+	}
+	for _, pr := range [][2]Lin{{cm.A, cm.B}, {cm.B, cm.A}} {
+		sy, ok := single(pr[0])
+		if !ok {
+			continue
+		}
+		ref, ok := e.elemLoads[sy]
+		if !ok {
+			continue
+		}
+		other := pr[1]
+		idx := ref.Idx
+		emit := func(states []*lfState, arm bool) {
+			eq := (cm.Op == token.EQL) == arm
+			if neg {
+				eq = !eq
+			}
+			out := "ne"
+			if eq {
+				out = "eq"
+			}
+			for _, s := range states {
+				s.events = append(s.events, lfEvent{Kind: "cmp", Name: ref.Org + "[" + e.linString(idx) + "]", Val: out + " lin(" + e.linString(other) + ")", Pos: pos, Org: ref.Org, Idx: &idx, V: &other})
+			}
+		}
+		emit(ts, true)
+		emit(fs, false)
+		return
+	}
+}
+
 func (e *lfEngine) execFrom(fr *lfFrame, st *lfState, b, from *ssa.BasicBlock, start int, k lfCont) {
 	for i := start; i < len(b.Instrs); i++ {
 		if !e.budget() {
@@ -984,6 +1074,9 @@ func (e *lfEngine) execFrom(fr *lfFrame, st *lfState, b, from *ssa.BasicBlock, s
 						s = st.clone()
 					}
 				}
+				if e.bits && e.emitting() {
+					e.cmpEvents(cond, []*lfState{s}, nil, x.Pos())
+				}
 				e.enter(f2, s, b.Succs[0], b, k)
 			}
 			for _, s := range fs {
@@ -993,6 +1086,9 @@ func (e *lfEngine) execFrom(fr *lfFrame, st *lfState, b, from *ssa.BasicBlock, s
 					if s == st {
 						s = st.clone()
 					}
+				}
+				if e.bits && e.emitting() {
+					e.cmpEvents(cond, nil, []*lfState{s}, x.Pos())
 				}
 				e.enter(f2, s, b.Succs[1], b, k)
 			}
@@ -1214,7 +1310,7 @@ func (e *lfEngine) step(fr *lfFrame, st *lfState, in ssa.Instruction) {
 			}
 			sv := e.val(fr, st, x.Val)
 			st.heap[key] = sv
-			if e.bits && e.onStore != nil && e.quiet == 0 {
+			if e.bits && e.emitting() {
 				if p.Obj == e.recvObj && e.recvObj != 0 && p.Path != "" {
 					e.onStore(st, "field", strings.TrimPrefix(p.Path, "."), e.renderVal(sv), x.Pos(), e.bitsOfVal(sv, typeBits(x.Val.Type())))
 				} else if p.Elem != nil && p.Elem.Org.Name != "d" {
@@ -1222,6 +1318,14 @@ func (e *lfEngine) step(fr *lfFrame, st *lfState, in ssa.Instruction) {
 						e.onStore(st, "wire", fmt.Sprintf("%s[%d]", p.Elem.Org.Name, k), e.renderVal(sv), x.Pos(), e.bitsOfVal(sv, 8))
 					} else {
 						e.onStore(st, "wire", p.Elem.Org.Name+"["+e.linString(p.Elem.Idx)+"]", e.renderVal(sv), x.Pos(), e.bitsOfVal(sv, 8))
+					}
+					if n := len(st.events); n > 0 && st.events[n-1].Kind == "wire" {
+						idx := p.Elem.Idx
+						st.events[n-1].Org, st.events[n-1].Idx = p.Elem.Org.Name, &idx
+						if iv, isI := sv.(vInt); isI {
+							vl := iv.E
+							st.events[n-1].V = &vl
+						}
 					}
 				}
 			}
@@ -1467,6 +1571,16 @@ func (e *lfEngine) doUnOp(fr *lfFrame, st *lfState, x *ssa.UnOp) {
 				return
 			}
 			v := e.fresh(st, x.Type(), apOf(x.X).String())
+			if e.bits && p.Elem != nil {
+				if iv, isI := v.(vInt); isI && len(iv.E.T) == 1 && iv.E.C == 0 {
+					for sy := range iv.E.T {
+						if e.elemLoads == nil {
+							e.elemLoads = map[Sym]lfElemRef{}
+						}
+						e.elemLoads[sy] = lfElemRef{Org: p.Elem.Org.Name, Idx: p.Elem.Idx}
+					}
+				}
+			}
 			if e.bits {
 				if p.Elem != nil && p.Elem.Org.Name == "d" {
 					if k, isK := p.Elem.Idx.isConst(); isK {
@@ -1755,6 +1869,8 @@ func (e *lfEngine) execLoop(fr *lfFrame, st *lfState, l *Loop, from *ssa.BasicBl
 		sym   Lin // fresh symbol standing for the value at the loop head (ints: value; slices: length)
 		isInt bool
 		isSl  bool
+		stride int64 // every back edge adds this constant (0: none)
+		word   bool  // word-sized integer (no wrap-around under the engine's standing assumption)
 	}
 	var phis []*phiInfo
 	for _, in := range h.Instrs {
@@ -1796,21 +1912,33 @@ func (e *lfEngine) execLoop(fr *lfFrame, st *lfState, l *Loop, from *ssa.BasicBl
 			if lo, hi, ok := intRange(pi.phi.Type()); ok {
 				st.cons = append(st.cons, geq(pi.sym, linConst(lo)), leq(pi.sym, linConst(hi)))
 			}
-			// constant stride: when every back edge carries phi+c (c ≥ 2) the head value is
-			// entry + c·k for the iteration count k ≥ 0 (word-sized integers; overflow is
-			// excluded by the engine's standing assumption on int arithmetic)
-			if c, ok := constStride(pi.phi, l); ok && c >= 2 {
-				if ent, isI := pi.entry.(vInt); isI && ent.B == nil {
-					kq := linSym(e.newSym(name(pi) + "@iter"))
-					eq := pi.sym.add(ent.E, -1).add(kq, -c)
-					st.cons = append(st.cons, geq(kq, linConst(0)), Cons{eq}, Cons{eq.scale(-1)})
-				}
-			}
+			pi.stride, pi.word = constStride(pi.phi, l)
 		} else if pi.isSl {
 			s := e.newSym("len(" + name(pi) + ")@loop")
 			pi.sym = linSym(s)
 			st.cons = append(st.cons, geq(pi.sym, linConst(0)))
 		}
+	}
+	// constant strides: when every back edge of a word-sized integer carries phi+c, its
+	// value at the head is entry + c·K for the number K ≥ 0 of completed iterations, the
+	// same K for all such integers of this loop (overflow of word-sized arithmetic is
+	// excluded by the engine's standing assumption)
+	var iterK *Lin
+	for _, pi := range phis {
+		if !pi.isInt || pi.stride == 0 || !pi.word {
+			continue
+		}
+		ent, isI := pi.entry.(vInt)
+		if !isI {
+			continue
+		}
+		if iterK == nil {
+			kq := linSym(e.newSym("iter@loop"))
+			iterK = &kq
+			st.cons = append(st.cons, geq(kq, linConst(0)))
+		}
+		eq := pi.sym.add(ent.E, -1).add(*iterK, -pi.stride)
+		st.cons = append(st.cons, Cons{eq}, Cons{eq.scale(-1)})
 	}
 	// candidate invariants (each is a constraint over the head symbols and outer symbols)
 	type cand struct {
@@ -1867,6 +1995,22 @@ func (e *lfEngine) execLoop(fr *lfFrame, st *lfState, l *Loop, from *ssa.BasicBl
 			}
 			if p.isInt && q.isSl {
 				addCand(leq(p.sym, q.sym))
+			}
+		}
+	}
+	// two integers advancing in lock-step keep their distance (narrow counters included: the
+	// candidate survives the back-edge check only if the narrow one provably does not wrap)
+	for i, p := range phis {
+		for _, q := range phis[i+1:] {
+			if !p.isInt || !q.isInt || p.stride == 0 || p.stride != q.stride || (p.word && q.word) {
+				continue
+			}
+			pe, ok1 := entryOf(p)
+			qe, ok2 := entryOf(q)
+			if ok1 && ok2 {
+				d := p.sym.add(q.sym, -1).add(pe, -1).add(qe, 1) // (p − q) − (pe − qe)
+				addCand(Cons{d})
+				addCand(Cons{d.scale(-1)})
 			}
 		}
 	}
@@ -1968,6 +2112,57 @@ func (e *lfEngine) execLoop(fr *lfFrame, st *lfState, l *Loop, from *ssa.BasicBl
 			break
 		}
 	}
+	// capture pass (bit-provenance mode): the events of one generalised iteration
+	if e.bits && e.emitting() {
+		sC := st.clone()
+		for _, cd := range cands {
+			if cd.alive {
+				sC.cons = append(sC.cons, cd.c)
+			}
+		}
+		n0, t0 := len(sC.events), len(sC.trail)
+		fC := fr.cloneEnv()
+		bindHead(fC)
+		meta := &lfLoopMeta{Pos: firstPos(h), Entry: map[Sym]Lin{}, Stride: map[Sym]int64{}}
+		for _, pi := range phis {
+			if !pi.isInt {
+				continue
+			}
+			for sy := range pi.sym.T {
+				meta.Syms = append(meta.Syms, sy)
+				if ent, ok := pi.entry.(vInt); ok {
+					meta.Entry[sy] = ent.E
+				}
+				meta.Stride[sy] = pi.stride
+			}
+		}
+		var loopEvs []lfEvent
+		lcC := &lfLoopCtx{loop: l}
+		lcC.onBack = func(f2 *lfFrame, s2 *lfState, fromB *ssa.BasicBlock) {
+			m := *meta
+			m.Guard = append([]string{}, s2.trail[t0:]...)
+			m.Cons = append([]Cons{}, s2.cons...)
+			// one marker per way of reaching the back edge, so that rules can tell whether
+			// an event occurs on every iteration
+			mk := m
+			loopEvs = append(loopEvs, lfEvent{Kind: "loop:path", Name: strings.Join(m.Guard, " ∧ "), Pos: m.Pos, Loop: &mk})
+			for _, ev := range s2.events[n0:] {
+				ev.Kind = "loop:" + ev.Kind
+				if ev.Loop == nil {
+					mm := m
+					ev.Loop = &mm
+				}
+				loopEvs = append(loopEvs, ev)
+			}
+		}
+		fC.active = append(fC.active, lcC)
+		e.quiet++
+		e.capture++
+		e.execFrom(fC, sC, h, nil, firstNonPhi, func(*lfState, []lfVal) {})
+		e.capture--
+		e.quiet--
+		st.events = append(st.events, loopEvs...)
+	}
 	// final pass with the inferred invariants
 	s1 := st.clone()
 	var inv []string
@@ -1986,17 +2181,18 @@ func (e *lfEngine) execLoop(fr *lfFrame, st *lfState, l *Loop, from *ssa.BasicBl
 	e.execFrom(f1, s1, h, nil, firstNonPhi, k)
 }
 
-// constStride: phi is a word-sized integer whose every in-loop incoming edge is
-// phi + c for one constant c.
+// constStride: every in-loop incoming edge of the integer phi is phi + c for
+// one constant c ≠ 0 (c returned; 0 when not so). word reports whether the phi
+// is a word-sized integer.
 func constStride(ph *ssa.Phi, l *Loop) (int64, bool) {
 	bt, ok := ph.Type().Underlying().(*types.Basic)
-	if !ok {
+	if !ok || bt.Info()&types.IsInteger == 0 {
 		return 0, false
 	}
+	word := false
 	switch bt.Kind() {
 	case types.Int, types.Int64, types.Uint, types.Uint64, types.Uintptr:
-	default:
-		return 0, false
+		word = true
 	}
 	var stride int64
 	n := 0
@@ -2005,24 +2201,30 @@ func constStride(ph *ssa.Phi, l *Loop) (int64, bool) {
 			continue
 		}
 		bo, ok := ph.Edges[j].(*ssa.BinOp)
-		if !ok || bo.Op != token.ADD {
-			return 0, false
+		if !ok || (bo.Op != token.ADD && bo.Op != token.SUB) {
+			return 0, word
 		}
 		var k int64
 		var isK bool
 		switch {
 		case bo.X == ssa.Value(ph):
 			k, isK = constInt(bo.Y)
-		case bo.Y == ssa.Value(ph):
+			if bo.Op == token.SUB {
+				k = -k
+			}
+		case bo.Y == ssa.Value(ph) && bo.Op == token.ADD:
 			k, isK = constInt(bo.X)
 		}
-		if !isK || (n > 0 && k != stride) {
-			return 0, false
+		if !isK || k == 0 || (n > 0 && k != stride) {
+			return 0, word
 		}
 		stride = k
 		n++
 	}
-	return stride, n > 0
+	if n == 0 {
+		return 0, word
+	}
+	return stride, word
 }
 
 func (e *lfEngine) substPhis(c Cons, _ interface{}) Cons { return c }
